@@ -222,7 +222,7 @@ func (r *run) runShard(w wlSpec, bin string, s, n int) {
 		cmd.Dir = r.outDir
 		env := os.Environ()
 		if w.Race {
-			env = append(env, "GORACE=halt_on_error=0 log_path="+base+".race")
+			env = append(env, "GORACE=halt_on_error=0 exitcode=0 log_path="+base+".race")
 		}
 		env = append(env, "GOTRACEBACK=all")
 		cmd.Env = env
@@ -298,7 +298,7 @@ func stackSig(st string) string {
 	for _, ln := range strings.Split(st, "\n") {
 		ln = strings.TrimSpace(ln)
 		if (strings.HasPrefix(ln, "github.com/xelaj/mtproto/") || strings.HasPrefix(ln, "github.com/xelaj/mtproto.")) && !strings.Contains(ln, "/zverif/") {
-			if i := strings.Index(ln, "("); i > 0 {
+			if i := strings.LastIndex(ln, "("); i > 0 {
 				ln = ln[:i]
 			}
 			ln = strings.TrimPrefix(strings.TrimPrefix(ln, "github.com/xelaj/mtproto/"), "github.com/xelaj/mtproto.")
